@@ -43,7 +43,11 @@ def compile_c(ctx, src, flags=(), lang="c", compiler=None, name=None):
     if os.path.exists(obj):
         return obj
     srcp = os.path.join(d, key + ext)
-    write(srcp, src)
+    # Atomic: several threads may compile identical source text at the same time; a plain
+    # truncate-and-write would let one thread's compiler read the other's half-written file.
+    stmp = srcp + f".tmp{threading.get_ident()}"
+    write(stmp, src)
+    os.replace(stmp, srcp)
     tmp = obj + f".tmp{threading.get_ident()}"
     r = run([compiler, "-c", srcp, "-o", tmp, *flags], timeout=120)
     if not r.ok:
